@@ -85,6 +85,10 @@ FalseList == << <<>>, <<48>>, <<110, 117, 108, 108>>, <<102, 97, 108, 115, 101>>
 TrueList == << <<120>>, <<121, 101, 115>>, <<111, 110>>, <<49>>, <<48, 48>>, <<48, 46, 48>>, <<110, 117, 108>>,
                <<111, 102, 102, 102>>, <<110, 32, 111>>, <<116, 114, 117, 101>>, <<110, 111, 112, 101>>, <<45, 49>> >>
 Spellings(b) == {b, Upper(b), Padded(b)}
+\* generous padding: "trimmed" has no length limit (40 blanks on each side)
+Blanks(n) == [i \in 1..n |-> 32]
+WidePadded(b) == Blanks(40) \o b \o Blanks(40)
+WideWords == {WidePadded(FalseList[i]) : i \in 1..Len(FalseList)} \cup {WidePadded(TrueList[1]), WidePadded(TrueList[2])}
 Words(nf, nt) == UNION {Spellings(FalseList[i]) : i \in 1..nf} \cup UNION {Spellings(TrueList[i]) : i \in 1..nt}
 
 B(b) == [t |-> "bool", b |-> b]
@@ -122,7 +126,7 @@ LogicInputs ==
 
 \* truthiness seen from outside an expression: a command prints a word and returns an exit number
 TruthRows == {[b |-> w, exit |-> e, truthy |-> TruthyOut(w, e)] :
-                 w \in Words(Len(FalseList), Len(TrueList)), e \in {0, 1, 3}}
+                 w \in Words(Len(FalseList), Len(TrueList)) \cup WideWords, e \in {0, 1, 3}}
 EmitTruth == ndJsonSerialize("truth.ndjson", SetToSeq(TruthRows))
 
 \* (operator arguments are evaluated once; a definition would re-read the file at every use)
